@@ -6,6 +6,12 @@
 //        and as_string_without_check.        -> "ok <count>" | "fail <x> <text> <got>"
 //   trt <start> <count> <stride> <threads>  for t (uint32): Timestamp(t.to_iso_all()) == t and for t != 0
 //        Timestamp(t.to_iso()) == t          -> "ok <count>" | "fail <t> <text>"
+//   seq <errno 0|ERANGE|EINVAL|EDOM> <conv> <hex> [<conv> <hex> [<conv> <hex>]]   (also sent to the model)
+//        sets errno to the given value, then calls the named conversions one after the other on THIS
+//        thread with nothing in between (no formatting, no I/O: the outcomes are kept as numbers and
+//        printed after the last call)        -> "<outcome> | <outcome> | <outcome>"
+//        The conversions are functions of their argument: every outcome must be the outcome of the
+//        same call on fresh state.  conv = sid ver cs uid nch ncm s2i32 s2i64 s2u64 oi64 ou32 c clon clat tp ts topl
 #include "common.hpp"
 
 #include <osmium/io/detail/opl_parser_functions.hpp>
@@ -17,6 +23,7 @@
 #include <osmium/util/misc.hpp>
 
 #include <atomic>
+#include <cerrno>
 #include <cstring>
 #include <iterator>
 #include <mutex>
@@ -86,6 +93,96 @@ std::string opl_int(const std::string& s) {
     }
 }
 
+// ---- call sequences (history independence) -------------------------------------------------------
+struct SeqR {
+    int kind = 0; // 0 = err, 1 = "ok v", 2 = "ok v consumed", 3 = "v", 4 = unknown conversion
+    long long v = 0;
+    long long n = 0;
+};
+
+enum class Conv { sid, ver, cs, uid, nch, ncm, s2i32, s2i64, s2u64, oi64, ou32, c, clon, clat, tp, ts, topl, bad };
+
+Conv conv_of(const std::string& n) {
+    static const char* const names[] = {"sid", "ver", "cs", "uid", "nch", "ncm", "s2i32", "s2i64", "s2u64", "oi64", "ou32", "c", "clon", "clat", "tp", "ts", "topl"};
+    for (int i = 0; i < static_cast<int>(Conv::bad); ++i) {
+        if (n == names[i]) return static_cast<Conv>(i);
+    }
+    return Conv::bad;
+}
+
+// exactly one library call; nothing else that could read or write errno on the normal path
+SeqR seq_call(Conv cv, const char* s) {
+    SeqR r;
+    try {
+        switch (cv) {
+            case Conv::sid: r.v = osmium::string_to_object_id(s); r.kind = 1; break;
+            case Conv::ver: r.v = osmium::string_to_object_version(s); r.kind = 1; break;
+            case Conv::cs: r.v = osmium::string_to_changeset_id(s); r.kind = 1; break;
+            case Conv::uid: r.v = osmium::string_to_uid(s); r.kind = 1; break;
+            case Conv::nch: r.v = osmium::string_to_num_changes(s); r.kind = 1; break;
+            case Conv::ncm: r.v = osmium::string_to_num_comments(s); r.kind = 1; break;
+            case Conv::s2i32: r.v = osmium::detail::str_to_int<int>(s); r.kind = 3; break;
+            case Conv::s2i64: r.v = osmium::detail::str_to_int<int64_t>(s); r.kind = 3; break;
+            case Conv::s2u64: r.v = static_cast<long long>(osmium::detail::str_to_int<std::size_t>(s)); r.kind = 3; break;
+            case Conv::oi64: { const char* p = s; r.v = osmium::io::detail::opl_parse_int<int64_t>(&p); r.n = p - s; r.kind = 2; break; }
+            case Conv::ou32: { const char* p = s; r.v = osmium::io::detail::opl_parse_int<uint32_t>(&p); r.n = p - s; r.kind = 2; break; }
+            case Conv::c: { const char* p = s; osmium::Location l; l.set_lon_partial(&p); r.v = l.x(); r.n = p - s; r.kind = 2; break; }
+            case Conv::clon: { osmium::Location l; l.set_lon(s); r.v = l.x(); r.kind = 1; break; }
+            case Conv::clat: { osmium::Location l; l.set_lat(s); r.v = l.y(); r.kind = 1; break; }
+            case Conv::tp: { const char* p = s; r.v = static_cast<long long>(osmium::detail::parse_timestamp(&p)); r.n = p - s; r.kind = 2; break; }
+            case Conv::ts: { const osmium::Timestamp t{s}; r.v = uint32_t(t); r.kind = 1; break; }
+            case Conv::topl: { const char* p = s; const osmium::Timestamp t = osmium::io::detail::opl_parse_timestamp(&p); r.v = uint32_t(t); r.n = p - s; r.kind = 2; break; }
+            default: r.kind = 4; break;
+        }
+    } catch (const std::range_error&) {
+        r.kind = 0;
+    } catch (const osmium::invalid_location&) {
+        r.kind = 0;
+    } catch (const std::invalid_argument&) {
+        r.kind = 0;
+    } catch (const osmium::opl_error&) {
+        r.kind = 0;
+    }
+    return r;
+}
+
+std::string seq_text(const SeqR& r) {
+    switch (r.kind) {
+        case 0: return "err";
+        case 1: return "ok " + std::to_string(r.v);
+        case 2: return "ok " + std::to_string(r.v) + " " + std::to_string(r.n);
+        case 3: return std::to_string(r.v);
+        default: return "bad-conv";
+    }
+}
+
+std::string seq_op(const std::vector<std::string>& w) {
+    int e = 0;
+    if (w[1] == "0") e = 0;
+    else if (w[1] == "ERANGE") e = ERANGE;
+    else if (w[1] == "EINVAL") e = EINVAL;
+    else if (w[1] == "EDOM") e = EDOM;
+    else return "bad-op";
+    const std::size_t n = (w.size() - 2) / 2;
+    Conv cv[3] = {Conv::bad, Conv::bad, Conv::bad};
+    std::string arg[3];
+    for (std::size_t i = 0; i < n; ++i) {
+        cv[i] = conv_of(w[2 + 2 * i]);
+        if (cv[i] == Conv::bad || !vh::unhex(w[3 + 2 * i], arg[i])) return "bad-op";
+    }
+    SeqR r[3];
+    errno = e;
+    for (std::size_t i = 0; i < n; ++i) {
+        r[i] = seq_call(cv[i], arg[i].c_str());
+    }
+    std::string out;
+    for (std::size_t i = 0; i < n; ++i) {
+        if (i) out += " | ";
+        out += seq_text(r[i]);
+    }
+    return out;
+}
+
 std::string step(const std::string& line) {
     const auto w = vh::words(line);
     if (w.empty()) return "bad-op";
@@ -97,6 +194,9 @@ std::string step(const std::string& line) {
         }
         if (op == "tsvariant" && w.size() == 3) {
             return "tsvariant " + w[1] + " " + w[2];
+        }
+        if (op == "seq" && (w.size() == 4 || w.size() == 6 || w.size() == 8)) {
+            return seq_op(w);
         }
         if (op == "c" && w.size() == 2 && vh::unhex(w[1], s)) {
             const char* p = s.c_str();
